@@ -461,6 +461,19 @@ def frame_independence(seed, n):
             T = PoseSE3([rng.gauss(0, sc) for _ in range(3)], rand_unit_quat(rng, near180=rng.random() < 0.3))
         else:
             T = np.array([rng.gauss(0, sc) for _ in range(ce.DIM[kind])])
+        if kind in ('SE2', 'SE3') and rng.random() < 0.15:
+            # the survey is ~5 km from the origin and every landmark starts at the origin: the first update of a landmark is thousands of units long
+            lm_ = [v for v in g._vertices if type(v.pose).__name__ in ('PoseR2', 'PoseR3')]
+            if lm_:
+                if kind == 'SE2':
+                    T0 = PoseSE2([rng.uniform(3e3, 6e3), rng.uniform(-6e3, 6e3)], rng.uniform(-3, 3))
+                else:
+                    T0 = PoseSE3([rng.uniform(3e3, 6e3), rng.uniform(-6e3, 6e3), rng.uniform(-500, 500)], rand_unit_quat(rng))
+                g = transform_graph(g, T0, kind)
+                for v in g._vertices:
+                    if type(v.pose).__name__ in ('PoseR2', 'PoseR3'):
+                        v.pose = type(v.pose)([0.0] * len(np.asarray(v.pose)))
+                sc = max(sc, 6e3)
         if rng.random() < 0.2:
             # every landmark (else every pose) of the ORIGINAL graph starts from one shared pose object; the transformed graph gets its own objects
             grp = [v for v in g._vertices if type(v.pose) is type(g._vertices[-1].pose)]
